@@ -7,6 +7,10 @@ package query
 
 //@ spec MatcherSpec(key, operator, value)
 //@   ensures err == nil ==> sqlSafe(ret0) // C20
+// ... and binds the client's values: an argument it returns is a bun.Safe (which bun writes into the statement verbatim)
+// only if that text is program text -- or if it is the caller's own value handed through untouched (the values come
+// from decoded JSON: strings, numbers, maps; a matcher must not turn one into a bun.Safe)
+//@   ensures err == nil ==> forall i9 in 0..len(ret1) :: typeis(ret1[i9], "schema.Safe") && ret1[i9] != value ==> sqlSafe(as(ret1[i9], "schema.Safe")) // C20
 
 // every value of type ContextFn is a function that returns SQL-safe text (checked at every conversion)
 //@ typespec query.ContextFn MatcherSpec // C20 C04
